@@ -26,7 +26,6 @@ import (
 	"sort"
 	"strings"
 
-	ethcomm "github.com/ethereum/go-ethereum/common"
 	ethtypes "github.com/ethereum/go-ethereum/core/types"
 	"github.com/ontio/ontology/common"
 	"github.com/ontio/ontology/common/config"
@@ -56,10 +55,8 @@ type run struct {
 	idx     int
 	extra   int
 	probe   *types.Block
-	stName  string   // Coq name of the state-store dump of this chain
-	cases   []string // buffered correspondence cases (headers must precede the first case)
-	descs   []interface{}
-	pending *[]pendingCase
+	stName  string         // Coq name of the state-store dump of this chain
+	pending *[]pendingCase // buffered correspondence cases (the store definitions must precede the first case)
 	seenErr map[string]bool
 }
 
@@ -609,7 +606,6 @@ func (r *run) everything() {
 			map[string]int{"chain": r.idx}, mainSnap[comp], twinSnap[comp])
 	}
 	x.Count("chain:twin-compared")
-	_ = ethcomm.Address{}
 }
 
 func max0(n int) int {
